@@ -587,6 +587,13 @@ func oddExecutables(r *lib.Run, scratch, workerSrc, workerCopy string, wb []byte
 			hs.CancelMS = 300
 		}
 		res, ok := hostCall(r, workerSrc, dir, hs)
+		for attempt := 0; ok && !res.OK && strings.Contains(res.ErrMsg, "text file busy") && attempt < 10; attempt++ {
+			// the script was written by this multi-threaded process; a child forked at that moment may still hold it open
+			// for writing (Go issue 22315) - an artefact of the harness, the call is simply made again
+			r.Event("wrapper-script-etxtbsy-retried")
+			time.Sleep(100 * time.Millisecond)
+			res, ok = hostCall(r, workerSrc, dir, hs)
+		}
 		if !ok {
 			return
 		}
